@@ -30,6 +30,8 @@ RULES = {
     "R2-effects": "write-effect set of every update routine == its documented trainee set (+ its optimizer); optimizer/module pairs at call sites agree with create_*_state",
     "R3-effect-free": "losses, policy-head methods, action samplers and greedy policies write no module",
     "R4-does-update": "the gradient of every site is consumed by an update on every normal path through the loop body",
+    "R6-stateful-objects-in-lax-carry": "no nnx Module / Optimizer is placed in the carry of jax.lax.fori_loop / while_loop / scan / cond: these primitives treat the operand as a pytree, "
+                                        "so the body trains a functional copy and the caller's object is never updated (nnx.fori_loop / nnx.scan propagate the state)",
     "R5-distinct-components": "the components a training routine returns (networks, targets, fixed copies, optimizers) are pairwise distinct objects, component-wise: "
                               "if two of them shared a sub-module, updating one would change the other",
 }
@@ -570,6 +572,125 @@ def run(ck, repo: Repo, tier: str):
                         ck.ob("R3-effect-free", q, "raw-value-store", False, short(n, 60), "direct store into a parameter's .value", loc(fn._module, n))
         ck.floor("effect-free-functions", n_free, 40)
     ck.guard(_section_6)
+    ck.guard(stateful_objects_in_lax_carry, ck, repo)
+
+
+LAX_CARRY = {"jax.lax.fori_loop": (3, "init_val"), "jax.lax.while_loop": (2, "init_val"), "jax.lax.scan": (1, "init"), "jax.lax.cond": (3, None), "jax.lax.switch": (2, None)}
+NNX_OBJECT_TYPES = ("flax.nnx.Module", "flax.nnx.Optimizer", "flax.nnx.ModelAndOptimizer", "flax.nnx.optimizer.Optimizer", "flax.nnx.module.Module")
+
+
+def _is_nnx_annotation(repo, mi, ann) -> bool:
+    if ann is None:
+        return False
+    for n in ast.walk(ann):
+        if isinstance(n, (ast.Name, ast.Attribute)):
+            try:
+                r = repo.resolve_expr(mi, n)
+            except Exception:
+                r = None
+            if r in NNX_OBJECT_TYPES:
+                return True
+            if r and r.startswith(repo.PKG + ".") and repo.has(r):
+                try:
+                    node = repo.lookup(r)[1]
+                except Exception:
+                    node = None
+                if isinstance(node, ast.ClassDef):
+                    for c in repo.mro(r):
+                        try:
+                            cn = repo.cls(c)
+                        except Exception:
+                            continue
+                        if any(repo.resolve_expr(cn._module, b) in NNX_OBJECT_TYPES for b in cn.bases if isinstance(b, (ast.Name, ast.Attribute))):
+                            return True
+    return False
+
+
+def _stateful_param(repo, q, fn, mi, name, depth=0):
+    """Why the parameter ``name`` of ``fn`` holds an nnx Module / Optimizer (text), or None when there is no evidence."""
+    for a in fn.args.posonlyargs + fn.args.args + fn.args.kwonlyargs:
+        if a.arg == name and _is_nnx_annotation(repo, mi, a.annotation):
+            return f"parameter `{name}: {ast.unparse(a.annotation)}`"
+    pp = positional_params(fn)
+    if q in TRAINEE_POS and name in pp and any(pp.index(name) == i for i, _a in TRAINEE_POS[q]):
+        return f"`{name}` is the documented trainee of {q.rsplit('.', 1)[1]}"
+    if depth < 2 and name in param_names(fn):
+        # what do the callers inside the package pass?
+        for q2, f2, mi2 in repo.all_functions():
+            if "<locals>" in q2:
+                continue
+            for c in ast.walk(f2):
+                if isinstance(c, ast.Call) and isinstance(c.func, (ast.Name, ast.Attribute)):
+                    try:
+                        r = repo.resolve_expr(mi2, c.func)
+                    except Exception:
+                        r = None
+                    if r == q:
+                        b = bind_call(fn, c)
+                        v = b.get(name)
+                        if isinstance(v, ast.Name) and v.id in param_names(f2):
+                            w = _stateful_param(repo, q2, f2, mi2, v.id, depth + 1)
+                            if w:
+                                return f"{w}, passed as `{name}` by {q2.rsplit('.', 1)[1]}"
+    return None
+
+
+def stateful_objects_in_lax_carry(ck, repo):
+    n_sites = 0
+    for q, fn, mi in repo.all_functions():
+        if "<locals>" in q:
+            continue
+        for c in ast.walk(fn):
+            if not (isinstance(c, ast.Call) and isinstance(c.func, (ast.Name, ast.Attribute))):
+                continue
+            try:
+                r = repo.resolve_expr(mi, c.func)
+            except Exception:
+                r = None
+            if r not in LAX_CARRY:
+                continue
+            n_sites += 1
+            idx, kw = LAX_CARRY[r]
+            ops = list(c.args[idx:]) if r in ("jax.lax.cond", "jax.lax.switch") else ([c.args[idx]] if len(c.args) > idx else [k.value for k in c.keywords if k.arg == kw])
+            names = []
+            for o in ops:
+                for x in ([o] if isinstance(o, ast.Name) else list(o.elts) if isinstance(o, (ast.Tuple, ast.List)) else [v_ for v_ in o.values] if isinstance(o, ast.Dict) else []):
+                    if isinstance(x, ast.Name):
+                        names.append(x)
+            bad = []
+            for x in names:
+                # the innermost function that has the name as a parameter
+                owner = x
+                why = None
+                while owner is not None:
+                    owner = getattr(owner, "_parent", None)
+                    if isinstance(owner, ast.FunctionDef) and x.id in param_names(owner):
+                        oq = q if owner is fn else None
+                        why = _stateful_param(repo, oq or q + ".<locals>." + owner.name, owner, mi, x.id) if oq else (
+                            next((f"parameter `{x.id}: {ast.unparse(a.annotation)}`" for a in owner.args.args if a.arg == x.id and _is_nnx_annotation(repo, mi, a.annotation)), None))
+                        break
+                if why:
+                    bad.append((x.id, why))
+            if bad:
+                # the final carry could be written back by hand: only a carry whose stateful positions are dropped is a definite loss
+                par = getattr(c, "_parent", None)
+                dropped = isinstance(par, ast.Expr)
+                if isinstance(par, ast.Assign) and len(par.targets) == 1 and isinstance(par.targets[0], (ast.Tuple, ast.List)) and len(ops) == 1 and isinstance(ops[0], (ast.Tuple, ast.List)) \
+                        and len(par.targets[0].elts) == len(ops[0].elts) and r != "jax.lax.scan":
+                    scope_fn = c
+                    while scope_fn is not None and not isinstance(scope_fn, ast.FunctionDef):
+                        scope_fn = getattr(scope_fn, "_parent", None)
+                    loads = {n_.id for n_ in ast.walk(scope_fn or fn) if isinstance(n_, ast.Name) and isinstance(n_.ctx, ast.Load)}
+                    pos = [i for i, e_ in enumerate(ops[0].elts) if isinstance(e_, ast.Name) and e_.id in {b_[0] for b_ in bad}]
+                    tg = par.targets[0].elts
+                    dropped = all(isinstance(tg[i], ast.Name) and (tg[i].id == "_" or tg[i].id not in loads) for i in pos)
+                if not dropped:
+                    ck.incomplete.append(f"{q}: `{short(c, 60)}` carries {[b_[0] for b_ in bad]} through {r}; the final carry is kept, whether it is written back to the caller's objects is not decided")
+                    continue
+            ck.ob("R6-stateful-objects-in-lax-carry", q, f"carry:{r.rsplit('.', 1)[1]}:{getattr(c, 'lineno', 0) - getattr(fn, 'lineno', 0)}", not bad,
+                  f"`{short(c, 70)}` carries {[x.id for x in names]}", "" if not bad else
+                  f"{'; '.join(f'`{n_}` ({w_})' for n_, w_ in bad)} is handed to {r} as a loop operand: the primitive works on a pytree copy, so the updates made in the body never reach the caller's object - the component is not trained although the returned loss decreases", loc(mi, c))
+    ck.floor("jax.lax-control-flow-sites", n_sites, 1)
 
 
 def _in_nested(node, fn):
@@ -683,6 +804,8 @@ def _opt_mod_at_call(repo, res, eff, tq, tfn, cfg, nid, call, depth=0):
 # ---- self-validation variants -------------------------------------------------------------------------------
 _A = "rl_blox/algorithm/"
 MUTANTS = [
+    {"id": "c05-lax-loop-copies-module", "file": "rl_blox/algorithm/reinforce.py", "rule": "R6", "find": "    v_loss = 0.0\n    for _ in range(value_gradient_steps):\n        v_loss, v_grad = nnx.value_and_grad(mse_value_loss, argnums=2)(\n            observations, returns, value_function\n        )\n        value_function_optimizer.update(value_function, v_grad)\n    return v_loss",
+     "replace": "    def body(_, carry):\n        vf, opt, _ = carry\n        v_loss, v_grad = nnx.value_and_grad(mse_value_loss, argnums=2)(\n            observations, returns, vf\n        )\n        opt.update(vf, v_grad)\n        return vf, opt, v_loss\n\n    _, _, v_loss = jax.lax.fori_loop(\n        0, value_gradient_steps, body, (value_function, value_function_optimizer, 0.0)\n    )\n    return v_loss"},
     {"id": "c05-dqn-argnums", "file": _A + "dqn.py", "rule": "R", "find": "    grad_fn = nnx.value_and_grad(loss, argnums=0, has_aux=True)\n    value, grad = grad_fn(q, *args, **kwargs)", "replace": "    grad_fn = nnx.value_and_grad(loss, argnums=0, has_aux=True)\n    value, grad = grad_fn(q, *args, **kwargs)\n    q = args[0]"},
     {"id": "c05-ddpg-actor-updates-q", "file": _A + "ddpg.py", "rule": "R1", "find": "    policy_optimizer.update(policy, grads)\n    return actor_loss_value", "replace": "    policy_optimizer.update(q, grads)\n    return actor_loss_value"},
     {"id": "c05-ddpg-argnums-shift", "file": _A + "ddpg.py", "rule": "R1", "find": "deterministic_policy_gradient_loss, argnums=2\n    )(q, observation, policy)", "replace": "deterministic_policy_gradient_loss, argnums=0\n    )(q, observation, policy)"},
